@@ -180,7 +180,7 @@ class DoctestParser:
         # If all lines begin with the same indentation, then strip it.
         min_indent = _min_indentation(string)
         if min_indent > 0:
-            string = '\n'.join([ln[min_indent:] for ln in string.splitlines()])
+            string = '\n'.join([ln[min_indent:] for ln in doctest_part._splitlines(string)])
 
         labeled_lines = None
         grouped_lines = None
@@ -716,7 +716,7 @@ class DoctestParser:
         #     want -> [want, text, dsrc]
         prev_state = TEXT
         curr_state = None
-        line_iter = enumerate(string.splitlines())
+        line_iter = enumerate(doctest_part._splitlines(string))
 
         for line_idx, line in line_iter:
             match = INDENT_RE.search(line)
